@@ -26,10 +26,14 @@ type c11Arg struct {
 }
 
 func c11Place(t *rapid.T, name string, content []byte) *c11Arg {
-	a := &c11Arg{name: name, place: gen.Pick(t, name+".place", "end", "end", "start", "heap")}
+	a := &c11Arg{name: name, place: gen.Pick(t, name+".place", "end", "end", "end-overcap", "start", "heap")}
 	switch a.place {
 	case "end":
 		a.buf = guard.End(len(content)).Fill(content)
+		a.b = a.buf.B
+	case "end-overcap":
+		// as "end", but the slice header advertises a capacity that runs into the inaccessible page: an input is len bytes long
+		a.buf = guard.End(len(content)).Fill(content).OverCap(gen.Uniform(t, name+".over", 1, 64))
 		a.b = a.buf.B
 	case "start":
 		a.buf = guard.Start(len(content)).Fill(content)
